@@ -23,7 +23,8 @@ RULE = ("per instance a pool of feasible packings (oracle-filtered) from "
 LEVEL_ASSUMPTIONS = [
     "objective oracle vlib/oracles/packing.py:objective_values written from "
     "the property text (skyline by coordinate compression)"]
-REQUIRED = {"concurrent_objective_evaluations": 5000, "suite_runs": 1, "contract_evaluate_evaluated": 2000, "dominance_pairs": 300,
+REQUIRED = {"evaluations_by_copied_objectives": 500,
+            "concurrent_objective_evaluations": 5000, "suite_runs": 1, "contract_evaluate_evaluated": 2000, "dominance_pairs": 300,
             "origin[nondecoder]": 200, "from_packing_and_end_result_ok": 20,
             "dtype[int8]": 1, "dtype[int16]": 1, "dtype[int32]": 1,
             "dtype[int64]": 1}
@@ -103,6 +104,9 @@ def build_pool(ctx, desc, inst):
     return out
 
 
+STATE = {"n": 0}
+
+
 def one_instance(ctx, desc):
     from moptipy.evaluation.end_results import EndResult
 
@@ -124,6 +128,37 @@ def one_instance(ctx, desc):
         if not (isinstance(lb, int) and isinstance(ub, int)) or lb > ub:
             ctx.violation(f"bounds-malformed:{key}", f"{key}: lb={lb} ub={ub}",
                           {"kind": "pool", "desc": desc, "pool": []})
+    # copies of the objective objects (copy / deepcopy / pickle round trip)
+    # rate the packing with the most bins first - a copy behaves like the
+    # object it was made from (the contract judges their values as well)
+    if STATE["n"] % 3 == 0:
+        from vlib.clones import clones
+        tag, rows, k = max(pool, key=lambda t: t[2])
+        y = wb.to_packing(inst, rows, k)
+        want = po.objective_values(desc, rows)
+        for key, o in objs.items():
+            if want[key] > INT64_MAX:
+                continue
+            for how, c in clones(ctx, o):
+                try:
+                    v = c.evaluate(y)
+                    cb = (c.lower_bound(), c.upper_bound())
+                except IndexError:
+                    raise       # an index outside an array is never "loud"
+                except Exception:  # noqa: BLE001
+                    # a copy that refuses to work (instances lose their
+                    # attributes in deepcopy / pickle) is loud, not wrong
+                    ctx.count(f"copied_objective_unusable[{how}]")
+                    continue
+                ctx.count("evaluations_by_copied_objectives")
+                if v != want[key] or cb != bounds[key]:
+                    ctx.violation(
+                        f"copied-objective-differs:{key}",
+                        f"{how} of {key}: evaluate = {v} (documented "
+                        f"{want[key]}), bounds {cb} vs {bounds[key]}",
+                        {"kind": "pool", "desc": desc,
+                         "pool": [[tag, rows, k]], "objective": key})
+    STATE["n"] += 1
     # history: decreasing bin count first (stale scratch entries), then random
     order = sorted(range(len(pool)), key=lambda i: -pool[i][2])
     extra = list(range(len(pool)))
